@@ -14,6 +14,54 @@ TRUSTED_BASE = [
 ]
 
 
+REPO = os.environ.get("VERIF_REPO", "/repo")
+
+
+def build_implrun(out_path, goenv, race=False):
+    """builds the harness against the library under check (honours VERIF_REPO like bin/check)"""
+    import shutil
+    hd = os.path.join(VERIF, "harness")
+    cmd = ["go", "build", "-tags", "verif"]
+    if race:
+        cmd.append("-race")
+    if os.path.realpath(REPO) != "/repo":
+        bd = os.path.dirname(out_path)
+        alt = os.path.join(bd, "go.alt.mod")
+        with open(os.path.join(hd, "go.mod")) as fh:
+            txt = fh.read().replace("=> /repo", "=> " + os.path.realpath(REPO))
+        with open(alt, "w") as fh:
+            fh.write(txt)
+        shutil.copy(os.path.join(REPO, "go.sum"), os.path.join(bd, "go.alt.sum"))
+        cmd.append("-modfile=" + alt)
+    p = subprocess.run(cmd + ["-o", out_path, "./cmd/implrun"], cwd=hd, env=goenv,
+                       stdout=subprocess.PIPE, stderr=subprocess.STDOUT, text=True)
+    return p.returncode == 0, p.stdout
+
+
+def race_detector_run(prop):
+    """extra: re-run the property's harness scenarios under the Go race detector;
+    a reported data race is a failing schedule (the property demands race freedom)"""
+    def extra(tmp, tier, seed, goenv):
+        exe = os.path.join(BUILD, "bin", "implrun-race")
+        ok, out = build_implrun(exe, goenv, race=True)
+        if not ok:
+            return {"evaluations": 0, "bad": [], "note": "race detector unavailable: " + out[-200:].replace("\n", " ")}
+        env = dict(goenv, GORACE="halt_on_error=0")
+        cases = os.path.join(tmp, "race-cases.tsv")
+        p = subprocess.run([exe, "-seed", str(seed + 1), "-tier", "quick", "-out", cases, prop], env=env,
+                           stdout=subprocess.PIPE, stderr=subprocess.STDOUT, text=True, timeout=1500)
+        n = sum(1 for _ in open(cases)) if os.path.exists(cases) else 0
+        bad = []
+        if "WARNING: DATA RACE" in p.stdout:
+            i = p.stdout.index("WARNING: DATA RACE")
+            report = p.stdout[i:i + 1800]
+            bad.append((0, "race-detector", prop + " scenarios under -race", report, "no data race", "0"))
+        return {"evaluations": n, "bad": bad,
+                "note": "%d %s scenario runs repeated under the Go race detector (-race): %s" %
+                        (n, prop, "DATA RACE reported" if bad else "no race reported")}
+    return extra
+
+
 PROPS = {}
 CLAIMS = {}
 
